@@ -106,17 +106,18 @@ class P(Prop):
             any(not c.fanout(f"{i}.{p}") for i, bb in c.blackboxes.items() for p in bb.output_set)
         tienames = any(n in ("tie_0", "tie_1", "tie_x") for n in c.graph.nodes)
         tag = (":unconnected-pin" if unconn else "") + (":reserved-name" if tienames else "")
-        if captured:
-            # a node of the circuit has exactly the name the reader gave one of its expression gates (K29)
-            tag = ":net-captures-synthetic"
+        def S(base):
+            # a node of the circuit has exactly the name the reader gave one of its expression gates: known finding K29,
+            # whatever the symptom
+            return "roundtrip:net-captures-synthetic" if captured else base + tag
         if o != "ok":
-            self.fail("search", f"readback-raised-{o}" + tag, f"reading the written text back raised {o}", case)
+            self.fail("search", S(f"readback-raised-{o}"), f"reading the written text back raised {o}", case)
             return
         if c2.name != c.name or c2.inputs() != c.inputs() or c2.outputs() != c.outputs():
-            self.fail("search", "roundtrip-io" + tag, f"name/io changed: {c2.name} {sorted(c2.inputs())} {sorted(c2.outputs())}", case)
+            self.fail("search", S("roundtrip-io"), f"name/io changed: {c2.name} {sorted(c2.inputs())} {sorted(c2.outputs())}", case)
             return
         if {k: v.name for k, v in c2.blackboxes.items()} != {k: v.name for k, v in c.blackboxes.items()}:
-            self.fail("search", "roundtrip-blackboxes" + tag, "blackbox instances changed", case)
+            self.fail("search", S("roundtrip-blackboxes"), "blackbox instances changed", case)
             return
         for inst, bb in c.blackboxes.items():
             for p in bb.input_set | bb.output_set:
@@ -124,10 +125,10 @@ class P(Prop):
                 a = (c.fanin(pin), c.fanout(pin))
                 b = (c2.fanin(pin), c2.fanout(pin)) if pin in c2.graph.nodes else None
                 if a != b:
-                    self.fail("search", "roundtrip-pin" + tag, f"pin {pin}: {a} before, {b} after", case)
+                    self.fail("search", S("roundtrip-pin"), f"pin {pin}: {a} before, {b} after", case)
                     return
         if not consts and not beh and canon_c(c2) != canon_c(c):
-            self.fail("search", "roundtrip-graph" + tag, "gate-primitive form did not round-trip to an identical graph: " +
+            self.fail("search", S("roundtrip-graph"), "gate-primitive form did not round-trip to an identical graph: " +
                       cdiff(canon_c(c), canon_c(c2)), case)
             return
         if c.is_cyclic():
@@ -144,7 +145,7 @@ class P(Prop):
                 if c.type(n) == "x" or any(c.type(x) == "x" for x in c.transitive_fanin(n)):
                     continue
                 if v[n] != w[n]:
-                    self.fail("search", "roundtrip-value" + tag, f"{n}: {v[n]} before, {w[n]} after under {a}", case)
+                    self.fail("search", S("roundtrip-value"), f"{n}: {v[n]} before, {w[n]} after under {a}", case)
                     return
 
     def search(self, n):
